@@ -15,6 +15,8 @@ address, size, emitted bytes (from C02/C05/C11 as stated), the labels their valu
 predicates used by the oracles: legality w.r.t. zones (C05), pairwise overlap (C04), memory map (C03)."""
 from __future__ import annotations
 
+import re
+
 import z3
 
 from sx import engine as E
@@ -81,6 +83,9 @@ def ITE(c, a, b):
 # ------------------------------------------------------------------------------------------------
 # rendering
 # ------------------------------------------------------------------------------------------------
+NUMERIC_LIKE = re.compile(r'^(?:[0-9a-f]+h|b[01]+)$', re.IGNORECASE)
+
+
 def render_stmt(st) -> list[str]:
     k = st[0]
     if k == 'org':
@@ -95,6 +100,8 @@ def render_stmt(st) -> list[str]:
         return [f'{st[1]} = {render(st[2])}']
     if k == 'data':
         return [f'{st[1]} ' + ', '.join(render(a) for a in st[2])]
+    if k == 'strdata':
+        return [f'{st[1]} "{st[2]}"']
     if k == 'fill':
         return [f'.fill {render(st[1])}, {render(st[2])}']
     if k == 'zero':
@@ -199,6 +206,10 @@ class Ref:
         k = st[0]
         if k == 'data':
             return E.bvval(DATA_W[st[1]] * len(st[2]))
+        if k == 'strdata':
+            # nominal (one value of the directive's width per character); shapes follow the line with an .org, and only
+            # "emitted == reserved" is judged for it
+            return E.bvval(DATA_W[st[1]] * len(st[2]))
         if k in ('fill', 'zero'):
             return evaluate(st[1], self.env, self.labels)
         if k == 'zerountil':
@@ -215,6 +226,11 @@ class Ref:
             bs = []
             for a in st[2]:
                 bs += O.value_bytes(evaluate(a, self.env, self.labels), DATA_W[st[1]], self.endian)
+            return ('bytes', bs)
+        if k == 'strdata':
+            bs = []
+            for ch in st[2]:
+                bs += O.value_bytes(E.bvval(ord(ch)), DATA_W[st[1]], self.endian)
             return ('bytes', bs)
         if k == 'fill':
             return ('rep', r.size, evaluate(st[2], self.env, self.labels) & E.bvval(0xff))
@@ -318,11 +334,17 @@ class Ref:
                     self.cursor[zone] = cur
                 r.zone, r.addr = zone, cur
                 r.size = self._size(st, cur)
+                if k in ('fill', 'zero'):
+                    # a negative count has no meaning: nothing could be emitted for the space "reserved"
+                    self.must_reject.append(r.size < E.bvval(0))
+                if k in ('label', 'const') and NUMERIC_LIKE.match(st[1]):
+                    # a name that every reference would read as a numeric literal
+                    self.must_reject.append(z3.BoolVal(True))
                 if k == 'label':
                     self.labels[st[1]] = cur
                 if k == 'const':
                     self.labels[st[1]] = evaluate(st[2], self.env, self.labels)
-                if k in ('data', 'fill', 'zero', 'zerountil', 'instr'):
+                if k in ('data', 'strdata', 'fill', 'zero', 'zerountil', 'instr'):
                     r.seg = 'later'
                 self.cursor[zone] = cur + r.size
                 self.recs.append(r)
